@@ -189,11 +189,10 @@ def _frac(v):
 
 
 # ----------------------------------------------------------------------------- concrete replay
-def run_concrete(fam, values):
-    """run the family on concrete parameter values against the real, un-shimmed behaviour.
-    returns dict(status, outcomes, violations)"""
+def _run_concrete_once(fam, values):
     core.set_engine(None)
     ctx = ConcCtx(values)
+    del shims.BOUNDARY_HITS[:]
     try:
         fam.fn(ctx, *fam.args)
         st = 'ok'
@@ -205,7 +204,28 @@ def run_concrete(fam, values):
         st = 'inadmissible'
     except Unsupported as e:
         st = 'unsupported: %s' % e
-    return dict(status=st, outcomes=ctx.outcomes, violations=ctx.violations)
+    return dict(status=st, outcomes=ctx.outcomes, violations=ctx.violations), list(shims.BOUNDARY_HITS)
+
+
+def run_concrete(fam, values):
+    """run the family on concrete parameter values against the real, un-shimmed behaviour.
+    returns dict(status, outcomes, violations).
+    The properties admit a case only if no hashed quantity lies within float noise (5e-13) of a decimal rounding boundary
+    of the hash.  A violating run in which the library rounded such a quantity is repeated with every boundary-near value
+    snapped consistently below, then above, the boundary: it counts as a violation only if it violates both ways (i.e. it
+    does not depend on which side the noise falls); otherwise the case is inadmissible."""
+    res, hits = _run_concrete_once(fam, values)
+    if res['status'] == 'violation' and hits:
+        try:
+            for mode in ('down', 'up'):
+                shims.BOUNDARY_MODE[0] = mode
+                r2, _ = _run_concrete_once(fam, values)
+                if r2['status'] != 'violation':
+                    res = dict(res, status='inadmissible', note='hashed quantity at a rounding boundary: %r' % (hits[:2],))
+                    break
+        finally:
+            shims.BOUNDARY_MODE[0] = None
+    return res
 
 
 def _nice_values(eng, ctx, model, extra_z=None):
